@@ -201,13 +201,13 @@ def check_property(prop, tier, seed, replay=None):
                 if ln.strip():
                     hsh, nm = ln.split()
                     pins[nm] = hsh
-        if prop.MODULE:
-            cur = C.sha256_file(os.path.join(C.COQ, "props", prop.MODULE + ".v"))
-            if pins.get(prop.MODULE + ".v") != cur:
-                broken.append("props/%s.v does not match its pinned statement hash" % prop.MODULE)
+        for fn in ([prop.MODULE + ".v"] if prop.MODULE else []) + list(getattr(prop, "PINNED_EXTRA", [])):
+            cur = C.sha256_file(os.path.join(C.COQ, "props", fn))
+            if pins.get(fn) != cur:
+                broken.append("props/%s does not match its pinned statement hash" % fn)
         # ---- proof obligations
         targets = (["props/%s.vo" % prop.MODULE] if prop.MODULE else []) + list(prop.EXTRA_TARGETS) + \
-                  ["model/Run.vo", "model/Extra.vo", "model/Hyp.vo", "gen/Kernels.vo"]
+                  ["model/Run.vo", "model/Extra.vo", "model/Hyp.vo", "gen/Kernels.vo", "proofs/QuarticFloat.vo", "props/C09F.vo"]
         ok_make, mlog = C.coq_make(targets)
         checker_cmd = "cd coq && make -j%d %s" % (C.NCPU, " ".join(targets))
         obligations = len(prop.THEOREMS) + n_gen
@@ -252,6 +252,7 @@ def check_property(prop, tier, seed, replay=None):
     mismatches = []
     dist = {}
     origin = {}          # id(case) -> (stream, index): lets a history-dependent failure be replayed with its prefix
+    ran = []             # (cases, harness results) per stream
     if hb_ok:
         if replay:
             payload = json.load(open(replay))
@@ -271,6 +272,7 @@ def check_property(prop, tier, seed, replay=None):
                 continue
             if res["coq_log"]:
                 broken.append("model execution failed: " + res["coq_log"][-800:])
+            ran.append((cases, res["hres"]))
             for i, d in res["mismatches"]:
                 mismatches.append((cases[i], res["hres"][i], d))
                 origin[id(cases[i])] = (cases, i)
@@ -291,10 +293,10 @@ def check_property(prop, tier, seed, replay=None):
     hyp = None
     if hb_ok and not replay and ok_make:
         hterms = []
-        for tag, cases in streams:
-            for c in cases or []:
+        for cases, hrs in ran:
+            for c, hr in zip(cases, hrs):
                 try:
-                    t = prop.hyp_term(c, {})
+                    t = prop.hyp_term(c, hr)
                 except Exception:
                     t = None
                 if t:
